@@ -79,3 +79,102 @@ package stats
 //@   requires s != nil && wfSS(*s) && s.Count > 0
 //@   ensures [def] result == sqrt(ssQ(*s) / s.Count)
 //@   assigns nothing
+
+// ---------------------------------------------------------------------
+// Histograms (C14). Model real.
+
+//@ spec wfLH(h LinearHist) bool =
+//@     h.min < h.max && len(h.bins) >= 1 && h.delta * (h.max - h.min) == len(h.bins)
+
+//@ func NewLinearHist
+//@   model real
+//@   requires min < max && nbins >= 1
+//@   ensures [wf]    result != nil && wfLH(*result)
+//@   ensures [shape] result.min == min && result.max == max && len(result.bins) == nbins && result.low == 0 && result.high == 0
+//@   ensures [zero]  forall j in 0..nbins :: result.bins[j] == 0
+//@   ensures [fresh] fresh(result) && fresh(result.bins)
+//@   assigns nothing
+
+//@ func LinearHist.bin
+//@   inline
+//@   assigns nothing
+
+//@ func LinearHist.Add
+//@   model real
+//@   let b = ifloor(h.delta * (x - h.min))
+//@   requires h != nil && wfLH(*h)
+//@   ensures [under] x < h.min ==> h.low == old(h.low) + 1 && h.high == old(h.high) && same(h.bins, old(h.bins))
+//@   ensures [over]  x >= h.max ==> h.high == old(h.high) + 1 && h.low == old(h.low) && same(h.bins, old(h.bins))
+//@   ensures [bin-range] h.min <= x && x < h.max ==> 0 <= b && b < len(h.bins)
+//@   ensures [bin-edges] h.min <= x && x < h.max ==> h.min + b/h.delta <= x && x < h.min + (b+1)/h.delta
+//@   ensures [bin-count] h.min <= x && x < h.max ==> h.bins[b] == old(h.bins[b]) + 1 && h.low == old(h.low) && h.high == old(h.high)
+//@   ensures [bin-others] h.min <= x && x < h.max ==> (forall j in 0..len(h.bins) :: j != b ==> h.bins[j] == old(h.bins[j]))
+//@   ensures [shape] h.min == old(h.min) && h.max == old(h.max) && h.delta == old(h.delta) && len(h.bins) == old(len(h.bins))
+//@   assigns *h, h.bins[*]
+
+//@ func LinearHist.Counts
+//@   model real
+//@   requires h != nil
+//@   results under, counts, over
+//@   ensures [def] under == h.low && over == h.high && len(counts) == len(h.bins) && region(counts) == region(h.bins) && offset(counts) == offset(h.bins)
+//@   assigns nothing
+
+//@ func LinearHist.BinToValue
+//@   model real
+//@   requires h != nil && wfLH(*h)
+//@   ensures [def] result == h.min + bin / h.delta
+//@   assigns nothing
+
+// BinToValue is increasing and linear (consequences of the closed form).
+//@ lemma linhist_bintovalue_increasing(lo real, delta real, a real, b real)
+//@   model real
+//@   requires delta > 0 && a < b
+//@   ensures lo + a/delta < lo + b/delta
+
+//@ func LogHist.bin
+//@   inline
+//@   assigns nothing
+
+// LogHist in log space: with L = mOverLogb*log(x) = m*log_b(x), x is in bin i
+// exactly when i <= L < i+1, i.e. b^(i/m) <= x < b^((i+1)/m).
+//@ func LogHist.Add
+//@   model real
+//@   let L = h.mOverLogb * log(x)
+//@   let b = ifloor(h.mOverLogb * log(x))
+//@   requires h != nil && x > 0
+//@   ensures [under] L < 0 ==> h.low == old(h.low) + 1 && h.high == old(h.high) && same(h.bins, old(h.bins))
+//@   ensures [over]  L >= len(h.bins) ==> h.high == old(h.high) + 1 && h.low == old(h.low) && same(h.bins, old(h.bins))
+//@   ensures [bin-edges] 0 <= L && L < len(h.bins) ==> 0 <= b && b < len(h.bins) && b <= L && L < b + 1
+//@   ensures [bin-count] 0 <= L && L < len(h.bins) ==> h.bins[b] == old(h.bins[b]) + 1 && h.low == old(h.low) && h.high == old(h.high)
+//@   ensures [bin-others] 0 <= L && L < len(h.bins) ==> (forall j in 0..len(h.bins) :: j != b ==> h.bins[j] == old(h.bins[j]))
+//@   ensures [shape] h.b == old(h.b) && h.m == old(h.m) && h.mOverLogb == old(h.mOverLogb) && len(h.bins) == old(len(h.bins))
+//@   assigns *h, h.bins[*]
+
+//@ func LogHist.BinToValue
+//@   model real
+//@   requires h != nil && h.m > 0
+//@   ensures [def] result == pow(h.b, bin / h.m)
+//@   assigns nothing
+
+// Interface-level contracts used by HistogramQuantile.
+//@ assume pure Histogram.BinToValue
+//@ assume func Histogram.Counts
+//@   results under, counts, over
+//@   ensures under == under_of(self) && over == over_of(self) && usum(counts, len(counts)) == binned_of(self)
+//@   assigns nothing
+
+//@ spec under_of(h Histogram) int
+//@ spec over_of(h Histogram) int
+//@ spec binned_of(h Histogram) int
+//@ spec usum(a []uint, k int) int = k <= 0 ? 0 : usum(a, k-1) + a[k-1]
+
+//@ func HistogramQuantile
+//@   model real
+//@   requires 0 <= q && q <= 1
+//@   loop 1 (count) invariant total == under + over + usum(counts, _k) && total >= under + over && usum(counts, _k) >= 0
+//@   loop 2 (bin) invariant goal >= 1 && goal + usum(counts, bin) == int(float64(total)*q) - under && goal + usum(counts, bin) <= usum(counts, len(counts)) && usum(counts, bin) >= 0 && 0 <= bin
+//@   check @ret1 [nan-under-over] int(float64(total)*q) <= under || int(float64(total)*q) > total - over
+//@   check @ret2 [rank-in-bin] usum(counts, bin) < int(float64(total)*q) - under && int(float64(total)*q) - under <= usum(counts, bin+1)
+//@   check @ret2 [interpolated] result0 == hist.BinToValue(bin + (int(float64(total)*q) - under - usum(counts, bin)) / float64(counts[bin]))
+//@   ensures [nan] (int(q * (under_of(hist) + binned_of(hist) + over_of(hist))) <= under_of(hist) || int(q * (under_of(hist) + binned_of(hist) + over_of(hist))) > under_of(hist) + binned_of(hist)) ==> isnan(result)
+//@   assigns nothing
